@@ -273,7 +273,14 @@ def run(prog, tier, extra=None):
     # starting at c and stepping by one runs K - c times). One more ancestor and a ticket just outside the window is counted.
     from ..linear import Lin as _Lin, Linearizer as _Lz
     D = prog.const("MIN_GOLDEN_TICKETS_DENOMINATOR")
+    # the walk may live in the helper itself or in a function it calls (`count_golden_tickets_before(start, &get_block)`)
+    walkers = list(gt)
     for b in gt:
+        for _, t in b.calls():
+            h = prog.bodies.get(t.get("res") or t.get("callee") or "")
+            if h is not None and not h.is_promoted and h.path.startswith(CORE + "consensus::blockchain::") and h not in walkers and "::tests::" not in h.path:
+                walkers.append(h)
+    for b in walkers:
         chb = Chaser(b)
         lzb = _Lz(b, chb, prog)
         walk_calls = [bb for bb, t in b.calls() if (call_name(t) or "").rsplit("::", 1)[-1] in ("call", "call_mut", "call_once") and "Fn" in (call_name(t) or "")]
